@@ -16,7 +16,9 @@ connect_op.hpp, read_message_op.hpp:
   R-PROGRESS the property-list loop fails when an iteration consumed nothing
   R-CGRAPH  a decode failure on the inbound path leads to on_malformed_packet / do_shutdown and
             never to the construction of a receive/auth operation or a success completion
-Not decided: hangs in the asynchronous framing loop, chunking independence, Boost/std internals.
+            and (framing) every re-read for the rest of a packet is dominated by
+            header bytes + Remaining Length <= buffer capacity
+Not decided: other hangs in the asynchronous framing loop, chunking independence, Boost/std internals.
 """
 from engine import Verdict
 from facts import (AnalysisBroken, Expr, callee_name, callee_cls, callee_q, strip, enum_of,
@@ -291,7 +293,7 @@ def run(fx, tier):
            '(or grow-to-fit); signed→unsigned on the way needs a non-negativity guard')
     v.rule('R-PRE', 'decode_X(n,it): n == distance(it,last) at every call site; decode_packet_id only with >= 2 bytes')
     v.rule('R-DEREF', 'cursor dereference in hand-written parsers dominated by a comparison with the range end')
-    v.rule('R-PROGRESS', 'property loop rejects an iteration that consumed nothing')
+    v.rule('R-PROGRESS', 'property loop rejects an iteration that consumed nothing; a packet whose remainder is awaited fits the receive buffer (header + Remaining Length <= capacity), so no read is started into an empty buffer')
     v.rule('R-CGRAPH', 'decode failure → malformed-packet handling, never a receive operation / success')
     v.assumptions = [
         'byte counts reported by Asio for reads this code initiated are within the buffer it offered (table TRUSTED_PARAMS)',
@@ -482,6 +484,13 @@ def run(fx, tier):
                         v.check(ok, 'R-CGRAPH', 'connect_op::%s%s:path%d' % (f.n, f.inst(), pi),
                                 'undecodable %s during the handshake → do_shutdown(malformed_packet), never complete()' % name[7:].upper(),
                                 key='C19:R-CGRAPH:connect_op::%s' % f.n, where=d.where())
+    # ------------------------------------------------------------------ R-PROGRESS: a packet that is awaited fits the buffer
+    # assemble_op re-arms a read (perform) while a packet is incomplete.  The read buffer has exactly `capacity` bytes
+    # (the argument of _read_buff.resize in perform); a packet of header + Remaining Length bytes that does not fit
+    # leaves perform() with an EMPTY buffer to read into — async_read_some completes at once with 0 bytes and the
+    # operation re-enters the same state forever.  So: every re-read issued after the Remaining Length is known is
+    # dominated by  header bytes + Remaining Length <= capacity  (any arrangement of that linear inequality).
+    frame_fit(fx, v)
     v.expect_min('R-BOUNDS', 25, 'advance/buffer/span sinks')
     v.expect_min('R-PRE', 12, 'decoder call sites')
     v.expect_min('R-DEREF', 10, 'cursor dereferences × instantiations')
@@ -493,3 +502,106 @@ def run(fx, tier):
         'handshake reader, and must be dominated by a comparison bounding it by the end of its range (edge-guard '
         'dominance over the CFG, operands matched after def-use expansion); preconditions are discharged at every call '
         'site. Decode-failure edges are followed to the malformed-packet handling.')
+
+
+# ---------------------------------------------------------------------------------------------- framing fit
+def _lin(f, x, sign, out, depth=0):
+    """linear form of an integral expression: {canonical term: coefficient}; constants under key 1"""
+    x = f.resolve(x) if isinstance(x, dict) and x.get('k') == 'elem' else x
+    while isinstance(x, dict) and x.get('k') in ('icast', 'cast', 'local', 'paramof', 'bindof', 'move') and 'e' in x:
+        if 'c' in x and x.get('k') in ('icast', 'cast'):
+            break
+        x = x['e']
+    if not isinstance(x, dict):
+        raise AnalysisBroken('framing bound: operand not recognised')
+    if 'c' in x and x.get('k') in ('lit', 'icast', 'cast', 'bin', 'un'):
+        out[1] = out.get(1, 0) + sign * int(x['c'])
+        return
+    if x.get('k') == 'bin' and x.get('op') in ('+', '-'):
+        _lin(f, x['l'], sign, out, depth + 1)
+        _lin(f, x['r'], sign if x['op'] == '+' else -sign, out, depth + 1)
+        return
+    if x.get('k') == 'call' and x.get('op') == '-' and len(x.get('args', [])) == 2:      # iterator difference b - a
+        key = 'dist(%r,%r)' % (canon(x['args'][1]), canon(x['args'][0]))
+        out[key] = out.get(key, 0) + sign
+        return
+    if is_call(x, 'distance') and len(x.get('args', [])) == 2:
+        key = 'dist(%r,%r)' % (canon(x['args'][0]), canon(x['args'][1]))
+        out[key] = out.get(key, 0) + sign
+        return
+    key = repr(canon(x))
+    out[key] = out.get(key, 0) + sign
+
+
+def frame_fit(fx, v):
+    n = 0
+    for f in fx.functions(cls='assemble_op', name='operator()'):
+        if f.tag != 'on_read':
+            continue
+        v.saw(f)
+        # capacity: what perform() resizes the buffer to
+        cap = None
+        for g in fx.functions(cls='assemble_op', name='perform'):
+            if g.tu != f.tu or g.ct != f.ct:
+                continue
+            for b, i, l, c in g.calls():
+                if callee_name(c) == 'resize' and 'obj' in c and is_member_of_this(c['obj'], '_read_buff'):
+                    cap = repr(canon(origin(g, c['args'][0])))
+        if cap is None:
+            raise AnalysisBroken('assemble_op::perform: _read_buff.resize(capacity) not found')
+        # the Remaining Length: result of type_parse(..., varint_)
+        vl = None
+        for b, i, l, c in f.calls():
+            if callee_name(c) == 'type_parse' and contains(c.get('args', []), lambda m: m.get('k') == 'ref' and m.get('n') == 'varint_'):
+                vl = (b, i)
+        if vl is None:
+            raise AnalysisBroken('assemble_op::on_read: Remaining Length parse not found')
+        is_vl = lambda t: contains(t, lambda m: m.get('_at') == vl or (m.get('k') in ('call', 'retof') and m.get('_at') == vl))
+        dom = f.dominators()
+        for b, i, l, c in f.calls():
+            if callee_name(c) != 'perform' or callee_cls(c) != 'assemble_op':
+                continue
+            guards = edge_guards(f, b)
+            # only re-reads issued when the Remaining Length is known (dominated by `varlen` engaged)
+            known = False
+            for cond, pol, gb in guards:
+                cm = comparison(origin(f, cond), pol)
+                if cm and cm[0] == '!=' and is_vl(cm[1]) and not contains(cm[1], lambda m: m.get('k') == 'call' and m.get('op') == '*'):
+                    known = True
+            if not known:
+                continue
+            n += 1
+            fit, seen = False, []
+            for cond, pol, gb in guards:
+                cm = comparison(origin(f, cond), pol)
+                if not cm or cm[0] not in ('<', '<=', '>', '>='):
+                    continue
+                op, lhs, rhs = cm
+                try:
+                    terms = {}
+                    _lin(f, lhs, 1, terms)
+                    _lin(f, rhs, -1, terms)
+                except AnalysisBroken:
+                    continue
+                if op in ('>', '>='):
+                    terms = {k: -c_ for k, c_ in terms.items()}
+                    op = '<' if op == '>' else '<='
+                terms = {k: c_ for k, c_ in terms.items() if c_ != 0}
+                const = terms.pop(1, 0)
+                vl_terms = [k for k in terms if isinstance(k, str) and 'type_parse' in k]
+                cap_terms = [k for k in terms if k == cap]
+                hdr_terms = [k for k in terms if isinstance(k, str) and k.startswith('dist(') and 'first' in k and k not in vl_terms]
+                if not (vl_terms and cap_terms):
+                    continue
+                seen.append(sorted((str(k)[:60], c_) for k, c_ in terms.items()))
+                others = [k for k in terms if k not in vl_terms + cap_terms + hdr_terms]
+                good = (len(vl_terms) == 1 and terms[vl_terms[0]] == 1 and terms[cap_terms[0]] == -1 and len(hdr_terms) == 1
+                        and terms[hdr_terms[0]] == 1 and not others and (const >= 0 if op == '<=' else const >= -1))
+                if good:
+                    fit = True
+            v.check(fit, 'R-PROGRESS', 'assemble_op::on_read:re-read at line %s fits [%s]' % (l, f.tu),
+                    'the re-read for the rest of the packet is dominated by header bytes + Remaining Length <= capacity (%s)%s' % (
+                        cap[:70], '' if fit else ' — NOT: bounds on the Remaining Length found: %s (the header bytes already in the buffer are not accounted for)' % seen),
+                    key='C19:R-PROGRESS:assemble_op:packet-fits-buffer', where='%s:%s' % (f.path_file(), l))
+    if n == 0:
+        raise AnalysisBroken('assemble_op::on_read: no re-read after the Remaining Length is known was found')
